@@ -342,6 +342,37 @@ func init() {
 			}
 		}
 
+		// ---- index normalisation and loops of @select / @slice (every if / for statement of the closure, in order)
+		for _, v := range []struct{ fn, lean string }{{"kfArraySelect", "selectIndexCode"}, {"kfArraySlice", "sliceIndexCode"}} {
+			cl := c17Closure(c.Func(rng, v.fn))
+			var lines []string
+			if cl != nil {
+				for _, st := range cl.Body.List {
+					switch st.(type) {
+					case *ast.IfStmt, *ast.ForStmt:
+						lines = append(lines, c17Squeeze(c.Print(st)))
+					}
+				}
+			}
+			if len(lines) > 0 {
+				fmt.Fprintf(&sb, "/-- the `if` / `for` statements of the closure of %s, in order -/\ndef %s : List String := %s\n\n", v.fn, v.lean, leanStrList(lines))
+			} else {
+				sb.WriteString(untranslatable(v.lean) + "\n")
+			}
+		}
+		// ---- the splitter and MakeArray, statement by statement
+		for _, v := range []struct{ file, fn, lean string }{
+			{"pkg/stringSplitter/splitter.go", "Splitter.Next", "splitterNext"}, {"pkg/stringSplitter/splitter.go", "Splitter.NextOk", "splitterNextOk"},
+			{"pkg/stringSplitter/splitter.go", "Splitter.Done", "splitterDone"}, {"pkg/expressions/stage.go", "MakeArray", "makeArrayCode"},
+		} {
+			c.Fingerprint(v.file, v.fn)
+			if l, ok := c17Stmts(c, c.Func(v.file, v.fn)); ok {
+				fmt.Fprintf(&sb, "/-- statements of `%s` (%s) -/\ndef %s : List String := %s\n\n", v.fn, v.file, v.lean, leanStrList(l))
+			} else {
+				sb.WriteString(untranslatable(v.lean) + "\n")
+			}
+		}
+
 		// ---- documented helpers
 		if b, err := os.ReadFile(filepath.Join(c.Repo, "docs/usage/expressions.md")); err == nil {
 			var names []string
